@@ -7,3 +7,4 @@ INIT Init
 NEXT Next
 CHECK_DEADLOCK FALSE
 INVARIANT MutantCaught
+INVARIANT MutantCaughtExposed
